@@ -52,14 +52,17 @@ theorem uint64Ok_of_repr_unsigned (k : IKind) (hk : k.signed = false) (v : Int) 
     simp only [IKind.minVal, IKind.maxVal, IKind.signed, IKind.bits, if_false, Bool.false_eq_true] at h <;>
     simp only [uint64Ok, Bool.and_eq_true, decide_eq_true_eq] <;> first | omega | exact absurd hk (by decide)
 
-/-- yaegi's representability test accepts whatever Go accepts (the converse fails in the signed gap) -/
+/-- yaegi's representability test is Go's (all kinds, all integers; Props.C03.representable_correct restates it) -/
+theorem reprY_eq_reprGo (k : IKind) (v : Int) : reprY Expected.C03.reprFacts k v = Spec.reprGo k v := by
+  rw [Bool.eq_iff_iff, reprY_iff, reprGo_iff]
+  cases k <;>
+    simp only [IKind.minVal, IKind.maxVal, IKind.signed, IKind.bits, Nat.reducePow, if_true, if_false,
+      Bool.false_eq_true] <;>
+    omega
+
 theorem reprY_of_reprGo (k : IKind) (v : Int) (h : Spec.reprGo k v = true) :
     reprY Expected.C03.reprFacts k v = true := by
-  rw [reprY_iff]
-  rw [reprGo_iff] at h
-  cases k <;>
-    simp only [IKind.minVal, IKind.maxVal, IKind.signed, IKind.bits, if_true, if_false, Bool.false_eq_true] at h ⊢ <;>
-    omega
+  rw [reprY_eq_reprGo]; exact h
 
 /-! ### value extraction and conversion of in-range integers -/
 
